@@ -33,7 +33,7 @@ def new_object(pms, fmt):
     return getattr(pms[fmt], cls)()
 
 
-def gen_manifest(rng, kind, n=None):
+def gen_manifest(rng, kind, n=None, hostile=True):
     n = n or rng.choice([1, 2, 3, 5, 8, 13])
     ops = []
     pool = [FM.gen_source_package(rng, i) for i in range(rng.randint(1, 4))] if kind == "rpms" else None
@@ -44,7 +44,7 @@ def gen_manifest(rng, kind, n=None):
             ops.append(FM.gen_modules_op(rng))
         else:
             ops.append(FM.gen_extra_op(rng))
-    comp = FC.gen_compose(rng)
+    comp = FC.gen_compose(rng, hostile=hostile)
     if comp["id"] == "<create>":
         comp["id"] = "X-1-%s%s.%d" % (comp["date"], domains.COMPOSE_TYPE_SUFFIX[comp["type"]], comp["respin"] % 100)
     return {"kind": kind, "ops": ops, "compose": comp}
@@ -54,9 +54,9 @@ def gen(fmt, rng, force=None, hostile=True):
     if fmt == "composeinfo":
         return FC.gen_description(rng, force, hostile=hostile)
     if fmt == "images":
-        return FI.gen_description(rng, force)
+        return FI.gen_description(rng, force, hostile=hostile)
     if fmt in MANIFEST_KIND:
-        return gen_manifest(rng, MANIFEST_KIND[fmt])
+        return gen_manifest(rng, MANIFEST_KIND[fmt], hostile=hostile)
     if fmt == "treeinfo":
         return FT.gen_description(rng, force, hostile=hostile)
     if fmt == "discinfo":
